@@ -58,6 +58,8 @@ _CALLID: contextvars.ContextVar = contextvars.ContextVar("c17_callid", default=N
 _PARENT: contextvars.ContextVar = contextvars.ContextVar("c17_parent", default=None)   # the command a backend is running
 _ROOT: contextvars.ContextVar = contextvars.ContextVar("c17_root", default=None)       # the depth-0 entry being served
 _LOG: list | None = None
+_OPNO = 0            # number of the scenario operation being handled (entries of one operation belong together)
+PROBE_MSG = "LOCK"
 _MUTE = False        # the harness itself is talking to a backend (loading values): not part of the trace
 
 GEN_CMDS = ("scan", "get_match")
@@ -115,11 +117,23 @@ class _Deep:
 
 
 def _entry(kind: str, obj, cmd: str, a, kw) -> dict:
-    e = {"depth": _DEPTH.get(), "kind": kind, "b": obj._c17_id(), "cmd": cmd, "keys": keys_of(cmd, a, kw)}
+    e = {"depth": _DEPTH.get(), "kind": kind, "b": obj._c17_id(), "cmd": cmd, "keys": keys_of(cmd, a, kw), "op": _OPNO}
     if _PARENT.get() is not None:
         e["parent"] = _PARENT.get()
     if _CALLID.get() is not None:
         e["call"] = _CALLID.get()
+    if cmd == "ping" and e["keys"] == [PROBE_MSG] and e["depth"] == 0 and _LOG is not None:
+        # The liveness probe of lock() (`_lock_probe(key)`, fix D43): a PING with message LOCK issued right after a backend
+        # refused the caller's set_lock.  It belongs to the LOCK KEY - that is the string it has to be routed and
+        # disable-checked by -, not to the text of its message (a plain cache.ping(b"LOCK") keeps its message as key).
+        for prev in reversed(_LOG):
+            if prev["kind"] == "body" or prev["depth"] != 0 or prev.get("call") != e.get("call"):
+                continue
+            if prev.get("call") is None and prev.get("op") != _OPNO:
+                break
+            if prev["cmd"] == "set_lock" and prev.get("ret", True) is not None and not prev.get("ret", True):
+                e["probe"], e["msg"], e["keys"] = True, PROBE_MSG, list(prev["keys"])
+            break
     if _LOG is not None and not _MUTE:
         _LOG.append(e)
     return e
@@ -627,6 +641,8 @@ async def _execute(sc) -> list[dict]:
         out["inv"] = bool(state["inv"].get(ctx, False))
 
     async def handle(ctx: int, op) -> dict:
+        global _OPNO
+        _OPNO += 1
         kind = op[0]
         out: dict = {}
         try:
